@@ -16,6 +16,9 @@ import (
 type c19Case struct {
 	Templates map[string]string `json:"templates"`
 	Calls     []sb.Call         `json:"calls"`
+	// BigMB > 0: template "bigbroken" is a syntax error followed by that many
+	// megabytes of well-formed rows (built on the fly, not stored in the case)
+	BigMB int `json:"big_mb,omitempty"`
 }
 
 func init() {
@@ -23,13 +26,23 @@ func init() {
 		ID:        "C19",
 		Level:     "exploration",
 		Technique: "stateful property-based testing (rapid): generated call histories with an invariant on the goroutine profile and the open-descriptor set after the history",
-		Rule: "histories of 1-40 calls drawn from {Parse, Execute, ExecuteSafe} x loaders {string, memory, filesystem over a generated directory} x templates {valid; a syntax error injected at a random token position or a truncation at a random offset (so that unread tokens remain); run-time failure; missing file; valid template including / extending a broken or missing one}. " +
+		Rule: "histories of 1-40 calls drawn from {Parse, Execute, ExecuteSafe} x loaders {string, memory, filesystem over a generated directory} x templates {valid; a syntax error injected at a random token position or a truncation at a random offset (so that unread tokens remain); run-time failure; missing file; valid template including / extending a broken or missing one}; plus one history over a template whose syntax error is followed by 24 MB (thorough: 64 MB) of well-formed source. " +
 			"Oracle (invariant after the history, GC disabled for its duration, bounded 200 ms settle): the goroutine profile contains no new goroutine with a stick frame and the set of open descriptors equals the set before the history. " +
 			"Non-trivial: the history contains >= 1 parse failure that leaves unread tokens and >= 1 filesystem load; counted per distinct history.",
 		Assumptions: []string{"goroutines are attributed to the library by a stick frame on their stack; descriptors by /proc/self/fd", "GC is disabled during a history so that os.File finalizers cannot mask an unclosed file"},
 	}
 	sub := NewSub(p, "history", func(c *Ctx, cs *c19Case) *Fail {
-		r := c.SB.Do(&sb.Req{Op: "leak", Templates: cs.Templates, Calls: cs.Calls, DeadlineMs: 10000})
+		tpls := cs.Templates
+		if cs.BigMB > 0 {
+			tpls = map[string]string{}
+			for k, v := range cs.Templates {
+				tpls[k] = v
+			}
+			row := "<tr><td>{{ row.id }}</td><td>{{ row.name|up }}</td>{% if row.ok %}<td>ok</td>{% endif %}</tr>\n"
+			tpls["bigbroken"] = "{% if %}\n" + strings.Repeat(row, cs.BigMB<<20/len(row))
+			tpls["inc-big"] = "head{% include 'bigbroken' %}tail"
+		}
+		r := c.SB.Do(&sb.Req{Op: "leak", Templates: tpls, Calls: cs.Calls, DeadlineMs: 30000})
 		nfail, nfs := 0, 0
 		for i, call := range cs.Calls {
 			if call.Loader == "fs" {
@@ -129,6 +142,15 @@ func init() {
 		return cs
 	}
 	p.Run = func(c *Ctx) {
+		// a failed parse of a very long template: the call returns at once, and
+		// nothing may go on working through the rest of the source afterwards
+		if c.Shard == 0 {
+			var calls []sb.Call
+			for i := 0; i < 6; i++ {
+				calls = append(calls, sb.Call{Kind: []string{"execute", "parse", "safe"}[i%3], Env: "core", Loader: []string{"memory", "fs"}[i%2], Entry: []string{"bigbroken", "inc-big"}[i/3]})
+			}
+			sub.Check(c, &c19Case{Templates: map[string]string{"ok": "fine"}, Calls: calls, BigMB: c.Pick(24, 64)})
+		}
 		sub.Rapid(c, c.Share(c.Pick(2000, 200000)), func(t *rapid.T) *c19Case { return genHistory(t, 40) })
 		if !c.Quick() && c.Shard == 0 {
 			// one long history: counts must stay flat
